@@ -293,17 +293,21 @@ Definition run_query (q : query) (stages : list stage) (parts : list (list Z)) :
   end.
 
 (* ---- programs: define a lineage, then run one query -------------------------------------------------------- *)
-(* state of the driver while the lineage is being defined: (lineage, log of user-function calls so far) *)
-Definition define (st : list stage * list event) (s : stage) : list stage * list event :=
-  (fst st ++ [s], snd st).
+(* state of the driver while the lineage is being defined: (lineage, log of user-function calls so far, length of
+   that log observed after each definition) *)
+Definition dstate : Type := (list stage * list event * list nat)%type.
 
-Definition define_all (stages : list stage) : list stage * list event :=
-  fold_left define stages ([], []).
+Definition define (st : dstate) (s : stage) : dstate :=
+  match st with (lin, log, seen) => (lin ++ [s], log, seen ++ [length log]) end.
+
+Definition define_all (stages : list stage) : dstate :=
+  fold_left define stages ([], [], [0%nat]).   (* [0]: after parallelize + the tagging stage *)
 
 Definition run_program (stages : list stage) (q : query) (parts : list (list Z))
-  : nat * (list event * result) :=
-  let d := define_all stages in
-  (length (snd d), run_query q (fst d) parts).
+  : list nat * (list event * result) :=
+  match define_all stages with
+  | (lin, _, seen) => (seen, run_query q lin parts)
+  end.
 
 (* ---- local model of Context.parallelize (sizes (i+1)L/n - iL/n, the last slice takes what is left) --------- *)
 Fixpoint split_sizes (sizes : list nat) (xs : list Z) : list (list Z) :=
